@@ -1,4 +1,7 @@
 //! Verification hook: public wrapper of the block fetch queue (gossip::fetch::Queue).
 //! `gossip::fetch` is a private module, so the wrappers themselves live in `verif/fetch_gossip.rs`, mounted as
 //! `crate::gossip::verif_fetch` (cfg-guarded `mod` line at the end of `gossip/mod.rs`); this file re-exports them.
-pub use crate::gossip::verif_fetch::{Fetcher, Queue};
+pub use crate::gossip::verif_fetch::{
+    node_current_blocks, node_gossip_inbound, raw_connect, Fetcher, GetBlockCall, Queue, RawPeer,
+    RawPeerRunner,
+};
